@@ -61,7 +61,30 @@ def run(repo, R):
 
     class E2(Elem):
         def on_if(self, st):
-            return  # validation branches only raise; nothing on the value path
+            if st.body and isinstance(st.body[-1], ast.Raise) and not st.orelse:
+                return  # validation branches only raise; nothing on the value path
+            # a branch on the value path: both sides are evaluated, names that differ become Piecewise((then, cond), (else, True))
+            cond = self.expr(st.test)
+            if not isinstance(cond, (sp.Basic, bool)) or isinstance(cond, sp.Symbol) and not cond.is_Boolean:
+                self.err("branch on a condition that is not a comparison", st)
+            env0 = dict(self.env)
+            for s_ in st.body:
+                self.stmt(s_)
+            env1 = self.env
+            self.env = dict(env0)
+            for s_ in st.orelse:
+                self.stmt(s_)
+            env2 = self.env
+            merged = dict(env0)
+            for k in set(env1) | set(env2):
+                a_, b_ = env1.get(k), env2.get(k)
+                if a_ is b_ or a_ == b_:
+                    merged[k] = a_
+                elif a_ is None or b_ is None:
+                    merged[k] = a_ if a_ is not None else b_  # bound on one side only: used later only where that side ran
+                else:
+                    merged[k] = sp.Piecewise((a_, cond), (b_, True))
+            self.env = merged
 
     E.__class__ = E2
     E.lenient = True
@@ -183,7 +206,7 @@ def run(repo, R):
     R.check(have_tr, "D2", f.site, "size check on the transform path",
             "no size check of the density matrix against the transformation was found", where=f.where(),
             expected="one_density_matrix.shape[0] vs transform.shape[0]")
-    R.floor("D1", R.rules["D1"][0], 3, "threshold obligations")
+    R.floor("D1", R.rules["D1"][0], 1, "threshold obligations")
     from ..flow import check_wrapper_dispatch
     pcf = repo.func("gbasis.integrals.point_charge.point_charge_integral")
     R.note_function(pcf.qualname)
@@ -243,6 +266,49 @@ def poisoned(expr, case, d):
     return any(poisoned(a, case, d) for a in expr.args)
 
 
+def decide_d1_by_orderings(R, f, T, Z, d, thr, atoms, where):
+    """Several comparisons (e.g. the masked store guarded by `threshold_dist > 0`).  When every comparison is between two of
+    {distance, threshold, a number}, its truth is constant on each order type of (distance, threshold) relative to those numbers, so the
+    term is decided for all real inputs by one representative per order type (distance >= 0): it must be 0 where d < threshold and Z/d
+    elsewhere, and a dropped nucleus must not be divided by its distance."""
+    site = f.site
+    consts = {sp.Integer(0)}
+    for at in atoms:
+        sides = (at.lhs, at.rhs)
+        if not all(x in (d, thr) or x.is_number for x in sides) or not isinstance(at, (sp.Lt, sp.Le, sp.Gt, sp.Ge, sp.Eq, sp.Ne)):
+            R.fail("D1", site, "threshold", f"the nuclear term depends on several comparisons {atoms}; `{at}` is not a comparison between the distance, "
+                   "the threshold and a number", where=where, expected="term dropped exactly when d < threshold_dist", found=str(T)[:160])
+            return
+        consts |= {x for x in sides if x.is_number}
+    marks = sorted(consts)
+    cands = [marks[0] - 1]
+    for a_, b_ in zip(marks, marks[1:]):
+        cands += [a_, a_ + (b_ - a_) / 3, a_ + 2 * (b_ - a_) / 3]
+    cands += [marks[-1], marks[-1] + 1, marks[-1] + 2]
+    bad = None
+    n_types = 0
+    for dv in [c_ for c_ in cands if c_ >= 0]:
+        for tv in cands:
+            n_types += 1
+            case = {}
+            for at in atoms:
+                tvl = at.subs({d: dv, thr: tv})
+                case[at] = sp.true if tvl == sp.true or tvl is True else sp.false
+            got = sp.simplify(sp.piecewise_fold(T.subs(case)))
+            dropped = dv < tv
+            want = sp.Integer(0) if dropped else Z / d
+            if sp.simplify(got - want) != 0:
+                bad = bad or (dv, tv, got, want, "value")
+            elif dropped and poisoned(T, case, d):
+                bad = bad or (dv, tv, got, want, "0/0")
+    R.check(bad is None or bad[4] != "value", "D1", site, f"thresholded nuclear term under {len(atoms)} comparisons ({n_types} order types of distance/threshold)",
+            "the per-nucleus term must be 0 below the threshold and +Z/d otherwise" + (f": for distance {bad[0]}, threshold {bad[1]} it is {bad[2]}" if bad else ""),
+            where=where, expected="Piecewise((0, d < thr), (Z/d, True))", found=str(T)[:200])
+    R.check(bad is None or bad[4] != "0/0", "D1-DEF", site, "dropped nucleus is not divided by its distance",
+            "for a dropped nucleus the code still divides by the point-nucleus distance: a point exactly on a nucleus gives 0/0 = nan",
+            where=where, expected="value 0 assigned (masked store / where)", found=str(T)[:200])
+
+
 def decide_d1(R, f, T, Z, d, thr, p, n, where):
     """T: per-nucleus term as a sympy expression in Z (charge), d (distance symbol), thr; possibly still containing the raw
     distance expression if the code's distance is not the Euclidean one."""
@@ -257,7 +323,7 @@ def decide_d1(R, f, T, Z, d, thr, p, n, where):
                where=where, expected="term dropped when d < threshold_dist", found=str(T)[:120])
         return
     if len(atoms) != 1:
-        R.fail("D1", site, "threshold", f"the nuclear term depends on several comparisons {atoms}", where=where)
+        decide_d1_by_orderings(R, f, T, Z, d, thr, atoms, where)
         return
     at = atoms[0]
     free = at.free_symbols
